@@ -41,6 +41,12 @@ class Path:
     def __truediv__(self, other):
         return Path(self.p + "/" + str(other))
 
+    def joinpath(self, *others):
+        out = self
+        for o in others:
+            out = out / o
+        return out
+
     def __str__(self):
         return self.p
 
@@ -127,7 +133,7 @@ class Harness:
 
         # ---- stagers module
         self.env_stagers = Env(it.globals)
-        _load_module(it, self.env_stagers, _mod(program, "stagers").source, {"abc": HObj("abc", attrs={"ABC": None}, methods={"abstractmethod": lambda f: f})})
+        _load_module(it, self.env_stagers, _mod(program, "stagers").source, {"abc": HObj("abc", attrs={"ABC": None}, methods={"abstractmethod": lambda f: f}), "itertools": HObj("itertools", attrs={"chain": BUILTINS["chain"], "zip_longest": BUILTINS["zip_longest"], "islice": BUILTINS["islice"]}), "chain": BUILTINS["chain"]})
         # ---- a minimal ChainState (the real one is the subject of C09 / C18)
         env_state = Env(it.globals)
         _load_module(it, env_state, STATE_SRC, {})
@@ -167,6 +173,13 @@ class Harness:
             "warn": _builtin(lambda *a, **k: None),
             "Path": self.Path,
             "queue": HObj("queue", attrs={"Empty": ExcClass("Empty")}),
+            "itertools": HObj("itertools", attrs={"chain": BUILTINS["chain"], "zip_longest": BUILTINS["zip_longest"], "islice": BUILTINS["islice"]}),
+            "chain": BUILTINS["chain"],
+            "operator": HObj("operator", attrs={"itemgetter": BUILTINS["itemgetter"]}),
+            "itemgetter": BUILTINS["itemgetter"],
+            "contextlib": HObj("contextlib", attrs={"nullcontext": BUILTINS["nullcontext"]}),
+            "dataclass": None,
+            "dataclasses": None,
             "ExitStack": _builtin(self._exit_stack),
             "_ignore_sigint_manager": _builtin(self._manager_cm),
             "_pool_context_manager": _builtin(self._pool_cm),
@@ -435,7 +448,7 @@ class Harness:
         return f
 
     # ------------------------------------------------------------------ one run
-    def run(self, *, n_chain, n_warm, n_main, trace_warm_up, adapters, traced, stager=None, inject_at=None, monitor=False, display_progress=False, n_process=1, assignment=None, worker_order=None, force_memmap=False, stats2=False):
+    def run(self, *, n_chain, n_warm, n_main, trace_warm_up, adapters, traced, stager=None, inject_at=None, monitor=False, display_progress=False, n_process=1, assignment=None, worker_order=None, force_memmap=False, stats2=False, rng_kind="jumped"):
         """adapters: None | 'fast' | 'fast+slow';  stager: None | 'windowed' (small windows) | 'warmup'"""
         self.rec = rec = Recorder()
         rec.inject_at = inject_at
@@ -445,7 +458,14 @@ class Harness:
         it = self.it
         it.budget = 400000
         transitions = {"t1": self._transition("t1", True), "t2": self._transition("t2", stats2)}
-        base = HObj("base_rng", attrs={"bit_generator": HObj("base_bitgen", methods={"jumped": lambda i: Token(f"jumped({i})")})})
+        if rng_kind == "spawn":
+            # a bit generator without `jumped` (e.g. SFC64): children are spawned from the seed sequence
+            seq = HObj("seed_seq", methods={"spawn": lambda n: [Token(f"jumped({i})") for i in range(n)]})
+            base = HObj("base_rng", attrs={"bit_generator": HObj("base_bitgen", attrs={"_seed_seq": seq})})
+        elif rng_kind == "legacy-attr":
+            base = HObj("base_rng", attrs={"_bit_generator": HObj("base_bitgen", methods={"jumped": lambda i: Token(f"jumped({i})")})})
+        else:
+            base = HObj("base_rng", attrs={"bit_generator": HObj("base_bitgen", methods={"jumped": lambda i: Token(f"jumped({i})")})})
         cls = self.env_samplers.lookup("MarkovChainMonteCarloMethod")
         sampler = it.call(cls, [base, transitions])
         ads = None
@@ -558,7 +578,7 @@ def _n_iter_of(label: str) -> int:
 
 
 def describe(params) -> str:
-    keys = ("n_chain", "n_warm", "n_main", "trace_warm_up", "adapters", "traced", "stager", "monitor", "display_progress", "n_process", "assignment", "worker_order", "force_memmap", "stats2")
+    keys = ("n_chain", "n_warm", "n_main", "trace_warm_up", "adapters", "traced", "stager", "monitor", "display_progress", "n_process", "assignment", "worker_order", "force_memmap", "stats2", "rng_kind")
     return ", ".join(f"{k}={params[k]}" for k in keys if k in params and params[k] not in (None, False) or k in ("n_chain", "n_warm", "n_main"))
 
 
@@ -918,6 +938,10 @@ SCENARIOS_QUICK = [
 ]
 
 SCENARIOS_QUICK += [
+    dict(n_chain=nc, n_warm=1, n_main=1, trace_warm_up=False, adapters=None, traced=False, stager=None, rng_kind=rk)
+    for nc in (1, 2, 3)
+    for rk in ("spawn", "legacy-attr")
+] + [
     dict(n_chain=2, n_warm=1, n_main=2, trace_warm_up=True, adapters=None, traced=True, stager=None, force_memmap=fm, stats2=True)
     for fm in (False, True)
 ] + [
@@ -1020,3 +1044,59 @@ def rule(rep, program: Program, tier: str, prop: str, rule_id: str):
         if p_ == prop:
             r.violate(prop, f"sample_chains:{key}", msg, node=None, file=str(sm.path))
     return r
+
+
+def available(program: Program, tier: str) -> bool:
+    """True when the abstract runs of the sampling driver could be carried out for this tree."""
+    cache = getattr(program, "_samplersim_cache", None)
+    if cache is None:
+        try:
+            cache = run_all(program, tier)
+        except Unsupported as exc:
+            cache = exc
+        program._samplersim_cache = cache
+    return not isinstance(cache, Exception)
+
+
+def superseded(rep, program: Program, tier: str, ids, by: str, fn, *args, **kwargs):
+    """A structural rule about the internals of samplers.py / stagers.py whose claim the abstract runs decide: it
+    runs only as the fallback when the abstract runs are unavailable (code outside the executor's subset)."""
+    if available(program, tier):
+        for rid, title in ids:
+            r = rep.rule(rid, f"{title} [decided by the abstract runs of sample_chains ({by}); the structural analysis is the fallback]", floor=1)
+            r.inst({"decided by": f"abstract runs ({by})"})
+        return None
+    return rep.isolate(fn, *args, **kwargs)
+
+
+def with_fallback(rep, program: Program, tier: str, by: str, fn, *args, **kwargs):
+    """A structural rule that is stronger than the abstract runs where it applies (symbolic in the iteration counts):
+    it always runs; when it cannot recognise the code's spelling (analysis error, anchors missing) and the abstract
+    runs are available, the bounded abstract runs decide and the rule records that it did not apply."""
+    n_rules, n_err = len(rep.rules), len(rep.errors)
+    from ..report import AnalysisError
+
+    try:
+        out = fn(*args, **kwargs)
+        failed = None
+    except AnalysisError as e:
+        out, failed = None, str(e)
+    new_rules = rep.rules[n_rules:]
+    below = [r for r in new_rules if (len(r.units) if r.units is not None else r.instances) < r.floor and not r.findings]
+    if failed is None and not below:
+        return out
+    if not available(program, tier):
+        if failed is not None and failed not in rep.errors:
+            rep.errors.append(failed)
+        return out
+    for r in new_rules:
+        if r in below or failed is not None:
+            r.floor = 0
+            r.notes.append(f"the structural analysis does not recognise this spelling ({failed or 'anchors not found'}); decided by the bounded abstract runs ({by}) instead")
+            if not r.findings:
+                r.inst({"decided by": f"abstract runs ({by})"}, exercised=False)
+    if failed is not None and not new_rules:
+        r = rep.rule("R?", f"structural rule not applicable to this spelling ({failed}); decided by the abstract runs ({by})", floor=0)
+        r.inst({"decided by": f"abstract runs ({by})"}, exercised=False)
+    del rep.errors[n_err:]
+    return out
